@@ -29,24 +29,24 @@ def calibrate(ctx, lib, progs, full=False):
 def c18(ctx):
     lib = build.libpath(build.build("ossl"))
     quick = ctx.tier == "quick"
-    known = {e["deviation"]: e for e in active_known(ctx.known) if e.get("deviation") in ("EarlyVisible", "TornRead")}
-    dev = "{" + ", ".join('"%s"' % d for d in sorted(known)) + "}"
+    known = {e["deviation"]: e for e in active_known(ctx.known) if e.get("deviation") in ("EarlyVisible", "TornRead", "LogoutSplit")}
+    dev = "{" + ", ".join('"%s"' % d for d in sorted(known) if d != "LogoutSplit") + "}"
     tc = dict(Threads=THREADS, Ids=IDS, Dev=dev)
     rng = random.Random(ctx.seed)
     # (programs, preemption bound, cap on schedules, full: EVERY lock and unlock callback is a scheduling point)
-    combos = [("g,g", 1, 4000, True), ("A,B", 1, 3000, False), ("A,E", 1, 4000, False), ("C,A", 1, 3000, False),
-              ("B,D", 2, 1000, False), ("s,f", 2, 1500, False), ("a,b,d", 1, 1000, False)] if quick else \
+    combos = [("g,g", 1, 4000, True), ("A,B", 1, 3000, False), ("A,E", 1, 3000, False), ("C,A", 1, 2000, False),
+              ("s,f", 2, 1500, False)] if quick else \
              [("g,g", 1, 10000, True), ("h,o", 1, 20000, True), ("g,h", 1, 20000, True), ("g,g", 2, 10000, True),
+              ("B,D", 1, 8000, False), ("a,b,d", 1, 8000, False),
               ("A,B", 2, 10000, False), ("A,E", 2, 10000, False), ("A,A", 2, 8000, False), ("B,D", 2, 8000, False),
               ("C,A", 2, 8000, False), ("B,B", 2, 5000, False), ("E,B", 2, 5000, False), ("s,f", 2, 8000, False),
               ("a,b,d", 2, 8000, False), ("a,a,b", 2, 8000, False)]
     # the shared token state (login state, last-session logout, the user PIN): ConcTok, a linearizability check
-    shared = [("Lc,Lo", 2, 3000, False), ("Lp,Lq", 1, 1500, True), ("Lr,Lx", 2, 2000, False), ("Lv,Ll", 2, 2000, False),
-              ("Lc,Lo", 1, 1500, True)] if quick else \
+    shared = [("Lc,Lo", 2, 2500, False), ("Lp,Lq", 2, 2500, False), ("Lv,Ll", 2, 2000, False)] if quick else \
              [("Lc,Lo", 2, 30000, False), ("Lc,Lo", 2, 20000, True), ("Lp,Lq", 2, 20000, True), ("Lr,Lx", 2, 20000, False),
               ("Lv,Ll", 2, 20000, False), ("Lc,Lv,Ll", 2, 20000, False), ("Lp,Lq,Lr", 2, 20000, False), ("Lr,Lx", 1, 10000, True)]
     tc_shared = dict(Threads=THREADS, PinSyms='{"P0", "P1", "P2", "PX"}', InitPin='"P0"',
-                     Dev="{" + ", ".join('"%s"' % d for d in sorted(known) if d == "EarlyVisible") + "}")
+                     Dev="{" + ", ".join('"%s"' % d for d in sorted(known) if d == "LogoutSplit") + "}")
     combos = combos + [c + (True,) for c in shared]
     only = [x for x in os.environ.get("VERIF_ONLY", "").split(";") if x]          # development runs
     if only:
@@ -78,6 +78,18 @@ def c18(ctx):
         ps, total = walker.paths(g, cap, rng)
         tot["schedules"] += len(ps)
         tot["paths_total"] += total
+        if len(combo) > 4 and n == 2:
+            # The calls of these programs take different paths through the library depending on what the other thread
+            # has done (a login that finds the user logged in returns early), so a schedule counted in points of the
+            # CALIBRATED programs drifts.  In addition, every two-preemption schedule counted in points of the execution
+            # itself: a runs i points, b runs j points, a runs on, b runs on - for all i, j and both orders.
+            direct = [["Run(%d)" % a] * i + ["Run(%d)" % b] * j + ["RunOn(%d)" % a, "RunOn(%d)" % b] * 2
+                      for a, b in ((1, 2), (2, 1)) for i in range(1, lens[a - 1] + 4) for j in range(1, lens[b - 1] + 4)]
+            if len(direct) > cap:
+                direct = rng.sample(direct, cap)
+            tot["paths_total"] += (lens[0] + 3) * (lens[1] + 3) * 2
+            tot["schedules"] += len(direct)
+            ps = ps + direct
         st = pipeline.replay_validate(ctx, "c18-" + tag, "vf.drv_conc", [lib, cmode, progs], ps,
                                       tmod, tcc, jobs=15, max_rej_per_chunk=1, max_confirm=3)
         pipeline.report_rejections(ctx, "c18-" + tag, st, "vf.drv_conc", [lib, cmode, progs])
@@ -119,7 +131,8 @@ def c18(ctx):
             with open(tr, "w") as f:
                 f.write("\n".join(cand["trace"]) + "\n")
             cfg = os.path.join(wd, "req.cfg")
-            others = "{" + ", ".join('"%s"' % d for d in sorted(known) if d != name) + "}"
+            mine = ("LogoutSplit",) if cand.get("tmod") == "Trace_ConcTok" else ("EarlyVisible", "TornRead")
+            others = "{" + ", ".join('"%s"' % d for d in sorted(known) if d != name and d in mine) + "}"
             tlc.write_cfg(cfg, spec="TSpec", constants=dict(cand.get("tc", tc), Dev=others), constraint="TrackMax",
                           postcondition="TraceAccepted")
             try:
